@@ -37,6 +37,7 @@ TRICKY = [
     (["t"], "len(t) > 0 and len(t[0]) > 0", {"t": []}),
     (["a", "b"], "not a or b[0]", {"a": 1, "b": [0]}),
 ]
+NEIGHBOURS = [{"from": "C09", "limit": 400, "why": "a violation raised with the message built from the call's values"}]
 
 
 def cases(tier, rng):
